@@ -389,6 +389,109 @@ theorem BackInv.pres {s s' : St} {o : Op} (hi : BackInv s) (h : step s o = some 
       · exact ⟨f, hf, hb⟩
     · simp at h
 
+/-- every queued flow carries, as its backup, the backup recorded for its entry when it was queued -/
+def BkInv (s : St) : Prop :=
+  ∀ e ∈ s.queue, ∃ f, s.fs[e.idx]? = some f ∧ f.backup = some e.bk
+
+theorem BkInv.presStart {s : St} (hi : BkInv s) (i : Nat) : BkInv (startOne s i) := by
+  unfold MitmVerif.C53.startOne
+  split
+  · unfold prepare
+    split
+    · exact hi
+    · rename_i g hg
+      intro e he
+      simp only [List.mem_append, List.mem_singleton] at he
+      rcases he with he | rfl
+      · obtain ⟨f, hf, hb⟩ := hi e he
+        exact keep_backup hf hb hg _ (by intro c hc; simp [hc])
+      · have hlt : i < s.fs.length := by
+          rcases Nat.lt_or_ge i s.fs.length with h | h
+          · exact h
+          · simp [List.getElem?_eq_none h] at hg
+        refine ⟨{ g with cur := { g.cur with resp := false, err := false, marked := true },
+                         backup := some (match g.backup with | none => g.cur | some b => b) }, ?_, rfl⟩
+        simp [hlt]
+        cases g.backup <;> rfl
+  · exact hi
+
+theorem BkInv.pres {s s' : St} {o : Op} (hi : BkInv s) (h : step s o = some s') : BkInv s' := by
+  cases o with
+  | start idxs =>
+    simp only [MitmVerif.C53.step, Option.some.injEq] at h; subst h
+    exact startReplay_ind BkInv (fun s i h => h.presStart i) idxs s hi
+  | stop =>
+    simp only [MitmVerif.C53.step] at h
+    split at h
+    · simp at h
+    simp only [Option.some.injEq] at h; subst h
+    intro e he; simp [stopReplay] at he
+  | edit i =>
+    simp only [MitmVerif.C53.step, Option.some.injEq] at h; subst h
+    intro e he
+    obtain ⟨f, hf, hb⟩ := hi e he
+    show ∃ f', (editFlow s.fs i)[e.idx]? = some f' ∧ f'.backup = some e.bk
+    unfold editFlow
+    split
+    · rename_i g hg
+      exact keep_backup hf hb hg _ (by intro c hc; simp [hc])
+    · exact ⟨f, hf, hb⟩
+  | take =>
+    simp only [MitmVerif.C53.step] at h
+    split at h
+    · rename_i e rest hinf hq
+      have key : ∀ e' ∈ rest,
+          ∃ f', (markLive s.fs e.idx)[e'.idx]? = some f' ∧ f'.backup = some e'.bk := by
+        intro e' he'
+        obtain ⟨f, hf, hb⟩ := hi e' (by rw [hq]; exact List.mem_cons_of_mem _ he')
+        unfold markLive
+        split
+        · rename_i g hg
+          exact keep_backup hf hb hg _ (by intro c hc; simp [hc])
+        · exact ⟨f, hf, hb⟩
+      split at h <;> (simp only [Option.some.injEq] at h; subst h; exact key)
+    · simp at h
+  | send =>
+    simp only [MitmVerif.C53.step] at h
+    split at h
+    · simp only [Option.some.injEq] at h; subst h; exact hi
+    · simp at h
+  | finish r =>
+    simp only [MitmVerif.C53.step] at h
+    split at h
+    · rename_i e0 ph hinf
+      simp only [Option.some.injEq] at h; subst h
+      intro e he
+      obtain ⟨f, hf, hb⟩ := hi e he
+      show ∃ f', (finishFlow s.fs e0.idx r)[e.idx]? = some f' ∧ f'.backup = some e.bk
+      unfold finishFlow
+      split
+      · rename_i g hg
+        exact keep_backup hf hb hg _ (by intro c hc; simp [hc])
+      · exact ⟨f, hf, hb⟩
+    · simp at h
+  | setopt b => simp only [MitmVerif.C53.step, Option.some.injEq] at h; subst h; exact hi
+  | bsend t =>
+    simp only [MitmVerif.C53.step] at h
+    split at h
+    · simp only [Option.some.injEq] at h; subst h; exact hi
+    · simp at h
+  | bfinish t r =>
+    simp only [MitmVerif.C53.step] at h
+    split at h
+    · rename_i p hp
+      simp only [Option.some.injEq] at h; subst h
+      intro e he
+      obtain ⟨f, hf, hb⟩ := hi e he
+      show ∃ f', (finishFlow s.fs p.1.idx r)[e.idx]? = some f' ∧ f'.backup = some e.bk
+      unfold finishFlow
+      split
+      · rename_i g hg
+        exact keep_backup hf hb hg _ (by intro c hc; simp [hc])
+      · exact ⟨f, hf, hb⟩
+    · simp at h
+
+
 /-- reverting other flows, or a flow without backup, leaves flow `i` alone -/
 theorem revertAll_keep : ∀ (idxs : List Nat) (fs : List FState) (i : Nat) (g : FState),
     fs[i]? = some g → g.backup = none → (revertAll fs idxs)[i]? = some g := by
@@ -611,12 +714,13 @@ structure Inv (s : St) : Prop where
   ord : OrdInv s
   repl : ReplInv s
   back : BackInv s
+  bk : BkInv s
   gseq : GSeqInv s
   gclosed : GClosed s
 
 theorem init_inv (attrs : List Attr) (fs : List FState) : Inv (init attrs fs) := by
-  refine ⟨by simp [SeqInv, init, logStatus, statusOf], ⟨?_, ?_, ?_, ?_, ?_⟩, ?_, ?_, ?_, ?_⟩ <;>
-    simp [init, startTickets, ReplInv, BackInv, GSeqInv, GClosed, seqStatus, openTicket, gstartTickets]
+  refine ⟨by simp [SeqInv, init, logStatus, statusOf], ⟨?_, ?_, ?_, ?_, ?_⟩, ?_, ?_, ?_, ?_, ?_⟩ <;>
+    simp [init, startTickets, ReplInv, BackInv, BkInv, GSeqInv, GClosed, seqStatus, openTicket, gstartTickets]
 
 theorem Inv.presRun : ∀ (os : List Op) (s s' : St), Inv s → MitmVerif.C53.run s os = some s' → Inv s' := by
   intro os
@@ -629,7 +733,7 @@ theorem Inv.presRun : ∀ (os : List Op) (s s' : St), Inv s → MitmVerif.C53.ru
     | none => simp [hs] at h
     | some s1 =>
       simp only [hs] at h
-      exact ih s1 s' ⟨hi.seq.pres hs, hi.ord.pres hs, hi.repl.pres hs, hi.back.pres hs, hi.gseq.pres hs,
+      exact ih s1 s' ⟨hi.seq.pres hs, hi.ord.pres hs, hi.repl.pres hs, hi.back.pres hs, hi.bk.pres hs, hi.gseq.pres hs,
         hi.gclosed.pres hs⟩ h
 
 theorem Reach.inv {attrs : List Attr} {fs : List FState} {s : St} (h : Reach attrs fs s) : Inv s := by
